@@ -10,6 +10,7 @@ import (
 	"github.com/Trendyol/go-dcp/config"
 	"github.com/Trendyol/go-dcp/couchbase"
 	"github.com/Trendyol/go-dcp/helpers"
+	"github.com/Trendyol/go-dcp/kubernetes"
 	"github.com/Trendyol/go-dcp/membership"
 	"github.com/Trendyol/go-dcp/servicediscovery"
 	"github.com/Trendyol/go-dcp/stream"
@@ -87,6 +88,8 @@ func init() {
 			out = append(out, Instance{Scenario: "c10_cb", Params: mustJSON(CBParams{Initial: 2, Event: "join-race", Perms: 1}), Bound: 0, Shards: 4, Note: "a monitor round of an existing member injected at every scheduling point of the newcomer's registration"})
 			out = append(out, Instance{Scenario: "c10_sd", Params: mustJSON(struct{}{}), Bound: 0, Shards: 4})
 			out = append(out, Instance{Scenario: "c10_simple", Params: mustJSON(struct{}{}), Bound: 0})
+			out = append(out, Instance{Scenario: "c10_first", Params: mustJSON(FirstParams{Inject: true}), Bound: 0, Note: "first numbering injected at every scheduling point of the first GetInfo()"})
+			out = append(out, Instance{Scenario: "c10_first", Params: mustJSON(FirstParams{}), Bound: 3, Note: "first numbering vs first GetInfo(), every schedule with <=3 deviations"})
 			return out
 		},
 	})
@@ -499,4 +502,78 @@ func init() {
 			vrt.SetOutcome(fmt.Sprintf("%d %v", nvb, hist))
 		}}
 	}
+}
+
+// c10_first: the first numbering of a dynamic / leader-assigned member races the first GetInfo() of the
+// stream: the announcement is injected at every scheduling point of the waiting caller (and, with a schedule
+// bound, every interleaving of caller, publisher and bus handler is explored); the caller must obtain exactly
+// the announced numbering within bounded time, and a later renumbering must replace it.
+type FirstParams struct {
+	Inject bool `json:"inject"`
+}
+
+func init() {
+	scenarios["c10_first"] = func(raw json.RawMessage) *vrt.Scenario {
+		var p FirstParams
+		_ = json.Unmarshal(raw, &p)
+		return &vrt.Scenario{Name: "c10_first", Main: func() { firstInfoMain(p) }, FreeChoices: true, MaxSteps: 200000, NoTimerAlt: true}
+	}
+}
+
+func firstInfoMain(p FirstParams) {
+	resetGlobals()
+	kind := vrt.Choose(2, true, "kind")
+	bus := EventBus.New()
+	var m membership.Membership
+	o := EnvOpts{}
+	o.defaults()
+	if kind == 0 {
+		m = membership.NewDynamicMembership(bus)
+	} else {
+		m = kubernetes.NewHaMembership(o.config(), bus)
+	}
+	name := []string{"dynamic", "leader-assigned"}[kind]
+	first := &membership.Model{MemberNumber: 2, TotalMembers: 3}
+	var got *membership.Model
+	returned := false
+	announce := func() {
+		bus.Publish(helpers.MembershipChangedBusEventName, first)
+		bus.WaitAsync()
+	}
+	k := -1
+	if p.Inject {
+		k = vrt.Choose(8, true, "announce-at")
+		vrt.InjectAtomic("waiter", k, announce)
+	}
+	vrt.Window(true)
+	vrt.GoNamed("waiter", func() {
+		got = m.GetInfo()
+		returned = true
+	})
+	if !p.Inject {
+		vrt.GoNamed("publisher", announce)
+	}
+	vrt.Sleep(time.Minute)
+	vrt.Window(false)
+	vrt.Quiesce()
+	if p.Inject && !vrt.Injected() {
+		// the waiting caller has fewer than k scheduling points before it blocks: nothing was announced
+		vrt.SetOutcome(fmt.Sprintf("%s k=%d beyond the caller's points", name, k))
+		return
+	}
+	if !returned {
+		vrt.Failf("%s membership: the numbering 2/3 was announced (at point %d of the waiting GetInfo) but GetInfo() never returned - the member never starts streaming, its vBuckets have no owner; blocked: %v", name, k, vrt.BlockedThreads())
+	} else if got == nil || got.MemberNumber != 2 || got.TotalMembers != 3 {
+		vrt.Failf("%s membership: GetInfo() returned %+v, announced 2/3", name, got)
+	}
+	// a renumbering replaces it for every later caller
+	bus.Publish(helpers.MembershipChangedBusEventName, &membership.Model{MemberNumber: 1, TotalMembers: 2})
+	bus.WaitAsync()
+	vrt.Quiesce()
+	if returned {
+		if i := m.GetInfo(); i.MemberNumber != 1 || i.TotalMembers != 2 {
+			vrt.Failf("%s membership: after the renumbering to 1/2 GetInfo() reports %d/%d", name, i.MemberNumber, i.TotalMembers)
+		}
+	}
+	vrt.SetOutcome(fmt.Sprintf("%s k=%d returned=%v", name, k, returned))
 }
